@@ -19,3 +19,30 @@ def f10c_product_left_dims_none_right_zipped(f) -> bool:
     if not ops or ops[0].get("dims") is not None:
         return False
     return any(isinstance(g, (list, tuple)) and len(g) >= 2 for o in ops[1:] for g in (o.get("dims") or []))
+
+
+def f5c_stale_cache_after_replace(f) -> bool:
+    """Pipeline.replace/drop+add keeps result-cache entries computed by the replaced function: the cached value is
+    exactly the uncached value with the replacement's tag (`f0v2(`) turned back into the original's (`f0(`)."""
+    import re
+    if f.check != "cached-twin-histories":
+        return False
+    c = _case(f)
+    hist = c.get("history") or []
+    replaced = {h["func"] for h in hist if h.get("op") == "replace"}
+    if not replaced:
+        return False
+    ok = False
+    for msg in (f.case or {}).get("violated", []):
+        m = re.search(r"cached '([^']*)' != uncached '([^']*)'", msg) or re.search(r"differs: '([^']*)' != '([^']*)'", msg)
+        pairs = [m.groups()] if m else re.findall(r"\('([^']*)', '([^']*)'\)", msg)
+        if not pairs:
+            return False
+        for cached, uncached in pairs:
+            restored = uncached
+            for fn in replaced:
+                restored = re.sub(rf"{fn}v\d+\(", f"{fn}(", restored)
+            if restored != cached or cached == uncached:
+                return False
+            ok = True
+    return ok
